@@ -177,7 +177,7 @@ func c19Fsize(tier string, shard, nshard int, res *engine.JobResult) {
 	for _, b := range bases {
 		c := b.Call
 		args, stdin, outfile, cleanup := c.cliArgs(0)
-		full := engine.CLI(stdin, 30*time.Second, nil, args...)
+		full := engine.CLI(stdin, 120*time.Second, nil, args...)
 		var size int
 		stdoutMode := outfile == ""
 		if stdoutMode {
@@ -216,10 +216,10 @@ func c19Fsize(tier string, shard, nshard int, res *engine.JobResult) {
 			if stdoutMode {
 				// stdout redirected to a regular file so that the size limit applies to it
 				so := filepath.Join(engine.Scratch(), fmt.Sprintf("fsize_stdout_%d", idx))
-				r = engine.CLIFsizeToFile(n, stdin, 30*time.Second, so, args...)
+				r = engine.CLIFsizeToFile(n, stdin, 120*time.Second, so, args...)
 				os.Remove(so)
 			} else {
-				r = engine.CLIFsize(n, stdin, 30*time.Second, args...)
+				r = engine.CLIFsize(n, stdin, 120*time.Second, args...)
 			}
 			res.Evals++
 			res.Validated++
@@ -283,9 +283,9 @@ func init() {
 					var r engine.CLIResult
 					if outfile == "" {
 						so := filepath.Join(engine.Scratch(), "fsize_stdout_replay")
-						r = engine.CLIFsizeToFile(m.Fsize, stdin, 30*time.Second, so, args...)
+						r = engine.CLIFsizeToFile(m.Fsize, stdin, 120*time.Second, so, args...)
 					} else {
-						r = engine.CLIFsize(m.Fsize, stdin, 30*time.Second, args...)
+						r = engine.CLIFsize(m.Fsize, stdin, 120*time.Second, args...)
 					}
 					if r.Exit == 0 {
 						res.Violate("replayed:binary-exit-0-with-truncated-output", fmt.Sprintf("exit 0 with RLIMIT_FSIZE=%d", m.Fsize), m)
